@@ -45,7 +45,9 @@ Pats == { UCat(ULit(SA), UCat(LF1, ULit(SB))),                    \* a\nb
 Opt(ci, word, line, crlf) == [ci |-> ci, smart |-> FALSE, word |-> word, line |-> line, crlf |-> crlf, nul |-> FALSE, inv |-> FALSE, dotall |-> FALSE]
 Opts == {Opt(FALSE, FALSE, FALSE, FALSE), [Opt(FALSE, FALSE, FALSE, FALSE) EXCEPT !.dotall = TRUE],
          Opt(FALSE, TRUE, FALSE, FALSE), Opt(FALSE, FALSE, TRUE, FALSE)}
-        \cup (IF WithCrlf THEN {Opt(FALSE, FALSE, FALSE, TRUE), Opt(FALSE, FALSE, TRUE, TRUE)} ELSE {})
+        \cup (IF WithCrlf THEN {Opt(FALSE, FALSE, FALSE, TRUE), Opt(FALSE, FALSE, TRUE, TRUE),
+                                 [Opt(FALSE, FALSE, FALSE, TRUE) EXCEPT !.dotall = TRUE]}     \* --crlf --multiline-dotall: the dot matches CR and LF
+               ELSE {})
 \* inputs of the --crlf scenarios: up to three tokens out of a, b, CR LF, a bare LF, a bare CR
 RECURSIVE Flat(_)
 Flat(t) == IF t = <<>> THEN <<>> ELSE Head(t) \o Flat(Tail(t))
